@@ -349,29 +349,8 @@ func runC18(c *Ctx) {
 	if fd := p.FuncDecl(pkg, "HeapKey", "CompareTo"); fd == nil {
 		r.Unresolved("cmp/direction", pkg+".HeapKey.CompareTo", "method not found")
 	} else {
-		got := map[string]string{}
-		ast.Inspect(fd.Body, func(n ast.Node) bool {
-			is, ok := n.(*ast.IfStmt)
-			if !ok || len(is.Body.List) != 1 {
-				return true
-			}
-			rs, ok := is.Body.List[0].(*ast.ReturnStmt)
-			if !ok || len(rs.Results) != 1 {
-				return true
-			}
-			cl, ok := ast.Unparen(is.Cond).(*ast.CallExpr)
-			if !ok {
-				return true
-			}
-			se, ok := cl.Fun.(*ast.SelectorExpr)
-			if !ok || len(cl.Args) != 1 {
-				return true
-			}
-			// receiver must be t, argument other
-			got[se.Sel.Name+"("+stripConv(se.X)+","+stripConv(cl.Args[0])+")"] = exprKey(rs.Results[0])
-			return true
-		})
-		if got["Before(t,other)"] == "-1" && got["After(t,other)"] == "1" {
+		got := timeCompareDirection(p, pkg, fd, pkg+".HeapKey.CompareTo")
+		if got["Before(recv,arg)"] == "-1" && got["After(recv,arg)"] == "1" {
 			r.Pass("cmp/direction", pkg+".HeapKey.CompareTo", p.posStr(fd.Pos()), "earlier time compares smaller (min-heap by scheduled time)")
 		} else {
 			r.Fail("cmp/direction", pkg+".HeapKey.CompareTo", p.posStr(fd.Pos()), fmt.Sprintf("earlier must be -1 and later +1, found %v", got))
@@ -470,9 +449,20 @@ func checkTaskExecutor(r *Reporter, p *Prog) {
 			}
 			return true
 		})
-		same := lf.RelEdges(func(rel Rel) bool {
-			return rel.Op == "==" && own != nil && (rel.L == own.Name() || rel.R == own.Name())
-		})
+		// (operands resolved through helper parameters back to the captured variable)
+		var same []Edge
+		if own != nil {
+			lf.forEachEdgeFact(func(e Edge, b *cfg.Block, ft fact) {
+				be, ok := ast.Unparen(ft.Atom).(*ast.BinaryExpr)
+				if !ok || !((be.Op == token.EQL && ft.Pol) || (be.Op == token.NEQ && !ft.Pol)) {
+					return
+				}
+				pt := Point{b, len(b.Nodes) - 1}
+				if lf.IsVar(be.X, pt, own) || lf.IsVar(be.Y, pt, own) {
+					same = append(same, e)
+				}
+			})
+		}
 		switch {
 		case len(dels) == 0:
 			r.Fail("ident/unregister-own-entry", ikey, p.posStr(lit.Pos()), "the wrapper never removes its identifier: finished tasks stay 'pending'")
